@@ -628,6 +628,23 @@ func c04Main(args []string) error {
 		out.put(c04StreamSrc(idx, tr, kinds[i%3], src, xs, ys))
 		idx++
 	}
+	// input arguments of more than 65536 wires: the garbler's label store spans several pages, the labels of wire i and
+	// of wire 65536+i are both transmitted (for different input bits)
+	for i, sz := range [][2]int{{8300, 2}, {8200, 8300}} {
+		if i == 1 && !thorough() && seed()%2 == 0 {
+			continue
+		}
+		src := fmt.Sprintf("package main\n\nfunc main(a [%d]byte, b [%d]byte) byte {\n\treturn a[0] ^ a[8192] ^ a[%d] ^ b[1] ^ b[%d]\n}\n", sz[0], sz[1], sz[0]-1, sz[1]-1)
+		hexOf := func(n int) string {
+			buf := make([]byte, n)
+			rng.Read(buf)
+			return fmt.Sprintf("0x%x", buf)
+		}
+		r := c04StreamSrc(idx, tr, kinds[i%3], src, []string{hexOf(sz[0])}, []string{hexOf(sz[1])})
+		r.Class = "stream-wide-input:" + kinds[i%3]
+		out.put(r)
+		idx++
+	}
 	if len(args) > 4 {
 		err := readND(args[4], func(raw json.RawMessage) error {
 			var mc mpCase
